@@ -19,6 +19,9 @@ void fpsym_eq(double a, double b, double scale, const char *label);
 void fpsym_le(double a, double b, double scale, const char *label);
 // obligation: a and b are the same function of the symbols (zero residual normal form) - symbol identity
 void fpsym_ident(double a, double b, const char *label);
+// obligation: jac is the partial derivative of val with respect to the symbol `symid`, for all inputs of this path class
+// (the driver differentiates the expression of val exactly and compares within tol*scale)
+void fpsym_deriv(double jac, double val, double scale, int symid, const char *label);
 // integer / structural fact that must hold on this path class (concrete; integers are path-determined)
 void fpsym_check(int cond, const char *label);
 // published output: compared bit-for-bit between the instrumented and the plain build
